@@ -44,6 +44,10 @@ SEEDS = [
     "query Other { num } query WithN($n: Int) { ...FN color } fragment FN on Query @dq(n: $n, t: \"x\") { num }",
     "fragment FN on Query @dq(n: $n) { num } query WithN($n: Int) { ...FN }",
     "query A($n: Int) { ...FN } query B($t: Tag) { ...FT } fragment FT on Query @dq(t: $t) { color } fragment FN on Query @dq(n: $n) { num }",
+    # non-null wrappers of a variable type around / inside lists, used at positions that are nullable at that depth (5.8.5 allows it)
+    "query Q($a: [Int!]!, $m: [[Int]!]) { lst(xs: $a, m: $m) }",
+    "query Q($m: [[Int!]!]!, $p: [P!]!) { ...LF } fragment LF on Query { lst(m: $m, ps: $p) }",
+    "query Q($i: [Int]!) { lst(m: [$i, [1]]) }",
     # a variable used on a field whose sub-selection ends with a field that has an argument of the same name and another type
     "mutation M($s: Int) { set(s: $s) { id echo(s: \"x\") } }",
     "mutation M($s: Int, $x: String) { ...MS } fragment MS on Mutation { set(s: $s, v: $x) { ... on A { name echo(x: 1, s: \"y\") } } }",
